@@ -82,6 +82,8 @@ func replay() {
 		}
 	case "btree":
 		btreeReplay(rep, rf.Replay)
+	case "bkt":
+		bktReplay(rep, rf.Replay)
 	case "flprog":
 		var r struct {
 			Kind  string   `json:"kind"`
